@@ -8,6 +8,7 @@ use fnv::FnvBuildHasher;
 use serde::de::Visitor;
 use serde::ser::SerializeMap;
 use serde::{Deserialize, Deserializer, Serialize, Serializer};
+use std::borrow::Cow;
 use std::collections::HashMap;
 use std::collections::hash_map::Entry;
 use std::convert::TryFrom;
@@ -833,7 +834,7 @@ impl<'de> Deserialize<'de> for Scheme {
             {
                 let mut builder = SchemeBuilder::new();
                 while let Some((name, SerdeField { ty, optional })) =
-                    map.next_entry::<&str, SerdeField>()?
+                    map.next_entry::<Cow<'_, str>, SerdeField>()?
                 {
                     builder
                         .add_field_full(name.into(), ty, optional)
